@@ -33,6 +33,7 @@ def sub_dep(txt, name, repl):
 
 txt = sub_dep(txt, "parking_lot", 'parking_lot = { path = "../shims/parking_lot" }')
 txt = sub_dep(txt, "dashmap", 'dashmap = { path = "../shims/dashmap" }')
+txt = sub_dep(txt, "arc-swap", 'arc-swap = { path = "../shims/arc-swap" }')
 if "verif-hooks" not in txt:
     sys.stderr.write("gen_shadow: feature verif-hooks missing in %s/Cargo.toml\n" % repo)
     sys.exit(2)
